@@ -147,6 +147,7 @@ package broker
 //@ func (m *MemoryBackend) Authenticate(client *Client, user string, password string) (ok bool, err error)
 //@   requires [unlocked] held[m.globalMutex] == 0
 //@   ensures [closing] old(m.closing) ==> !ok && err != nil
+//@   ensures [verdict] !old(m.closing) ==> err == nil && (ok <==> (m.Credentials == nil || (has(m.Credentials, user) && m.Credentials[user] == password)))
 //@   ensures [released] held == old(held)
 //@   modifies held
 //
